@@ -41,6 +41,7 @@ var (
 	Reached []string
 	App     *simapp.SimApp
 	nAssume int
+	hit     bool
 )
 
 func Load(path string) {
@@ -52,7 +53,7 @@ func Load(path string) {
 	if err := json.Unmarshal(bz, &R); err != nil {
 		panic(err)
 	}
-	Failed, Unmet, Reached, nAssume = nil, nil, nil, 0
+	Failed, Unmet, Reached, nAssume, hit = nil, nil, nil, 0, false
 	App = nil
 }
 
@@ -184,6 +185,9 @@ func Any(cs ...bool) bool {
 
 func Assume(c bool) {
 	nAssume++
+	if hit { // past the violated assertion the engine continues under the assertion; natively that point is the end
+		return
+	}
 	if !c {
 		Unmet = append(Unmet, strconv.Itoa(nAssume))
 	}
@@ -191,15 +195,16 @@ func Assume(c bool) {
 func Assert(c bool, clause string) {
 	if !c {
 		Failed = append(Failed, clause)
+		if clause == R.Clause {
+			hit = true
+		}
 	}
 }
 
 // AssertKF is Assert for a clause with a recorded known finding: inRegion characterises the
 // inputs / states of the finding, so that any other violation of the clause is still reported.
 func AssertKF(c bool, clause string, finding string, inRegion bool) {
-	if !c {
-		Failed = append(Failed, clause)
-	}
+	Assert(c, clause)
 }
 func Reach(label string) { Reached = append(Reached, label) }
 
